@@ -45,8 +45,28 @@ func c06Command(r *rand.Rand, uid *gen.UID) *pipeline.CommandStep {
 	if r.IntN(3) == 0 {
 		st.Plugins = pipeline.Plugins{{Source: "docker#v1", Config: map[string]any{"image": "alpine", "n": r.IntN(10)}}}
 	}
+	many := func(n int) map[string]any {
+		m := map[string]any{}
+		for i := 0; i < n; i++ {
+			m[fmt.Sprintf("extra_%d_%s", i, uid.Next())] = []any{i, "v", map[string]any{"k": i}}
+		}
+		return m
+	}
 	if r.IntN(4) == 0 {
 		st.Matrix = &pipeline.Matrix{Setup: pipeline.MatrixSetup{"": {"a", "b"}}}
+		switch r.IntN(4) {
+		case 0: // a non-simple matrix with many unknown keys (9, 17 and 40 cross typical size thresholds)
+			st.Matrix.RemainingFields = many([]int{1, 9, 17, 40}[r.IntN(4)])
+		case 1:
+			st.Matrix.Setup = pipeline.MatrixSetup{"os": {"linux"}, "arch": {"amd64", "arm64"}}
+			st.Matrix.Adjustments = pipeline.MatrixAdjustments{{With: pipeline.MatrixAdjustmentWith{"os": "plan9", "arch": "386"}, RemainingFields: many([]int{0, 2, 9, 20}[r.IntN(4)])}}
+		}
+	}
+	if r.IntN(6) == 0 {
+		st.RemainingFields = many([]int{9, 17, 33}[r.IntN(3)])
+	}
+	if r.IntN(8) == 0 {
+		st.Cache = &pipeline.Cache{Paths: []string{"a"}, RemainingFields: many([]int{3, 9, 20}[r.IntN(3)])}
 	}
 	if r.IntN(4) == 0 {
 		st.RemainingFields = map[string]any{"agents": map[string]any{"queue": "q"}, "timeout": 5}
@@ -191,7 +211,7 @@ func checkC06(c *run.Ctx) {
 		case 1:
 			penv = map[string]string{}
 		case 2:
-			penv = map[string]string{"P1": "v1", "P2": "v2"}
+			penv = map[string]string{"P1": "v1", "P2": "v2", "env": "lower", "node_version": "20", "v": "1"}
 		case 3:
 			penv = map[string]string{"A": "pa", "SHARED": "ps", "P3": "v3"}
 		default:
